@@ -66,9 +66,15 @@ def _rm_place(pl, lo):
     return [pl[0] + lo, [_rm_proj(x, lo) for x in pl[1]]]
 
 
+_RM_CTX = {"owner": None}
+
+
 def _rm_op(op, lo):
     if isinstance(op, list) and op and op[0] in ("m", "c"):
         return [op[0], _rm_place(op[1], lo)]
+    if isinstance(op, list) and len(op) == 2 and op[0] == "k" and isinstance(op[1], dict) and "promoted" in op[1] and "promoted_of" not in op[1] and _RM_CTX["owner"]:
+        # a promoted constant of the spliced function: remember whose it is
+        return ["k", dict(op[1], promoted_of=_RM_CTX["owner"])]
     return op
 
 
@@ -213,8 +219,10 @@ def inline_new_helpers(crate, raw, defpath, depth=3):
                 cont = t.get("t")
                 blocks.append({"s": ([["A", dest, ["use", ["m", [lo, []]]], line]] if dest is not None else []),
                                "t": ({"line": line, "k": "goto", "t": cont} if isinstance(cont, int) else {"line": line, "k": "unreachable"})})
+                _RM_CTX["owner"] = d
                 for bl in craw["blocks"]:
                     blocks.append(_rm_block(bl, lo, bo, ret_blk))
+                _RM_CTX["owner"] = None
                 nb = dict(blocks[i])
                 nb["t"] = {"line": line, "k": "goto", "t": entry_blk}
                 blocks[i] = nb
@@ -249,8 +257,10 @@ def inline_new_helpers(crate, raw, defpath, depth=3):
                     ready = ["agg", {"adt": "core::task::poll::Poll", "variant": "Ready", "vidx": 0, "fields": ["0"]}, [["m", [lo, []]]]]
                     blocks.append({"s": ([["A", dest, ready, line]] if dest is not None else []),
                                    "t": ({"line": line, "k": "goto", "t": cont} if isinstance(cont, int) else {"line": line, "k": "unreachable"})})
+                    _RM_CTX["owner"] = hit[0]
                     for bl in craw["blocks"]:
                         blocks.append(_rm_block(bl, lo, bo, ret_blk))
+                    _RM_CTX["owner"] = None
                     nb = dict(blocks[i])
                     nb["t"] = {"line": line, "k": "goto", "t": entry_blk}
                     blocks[i] = nb
@@ -1881,7 +1891,12 @@ class Body:
                     if fp is not None:
                         for (l2, p2), v2 in list(d.items()):
                             if l2 == src and p2 != "variant" and p2[:len(fp)] == fp:
-                                d[(loc, p2[len(fp):])] = v2
+                                rest_ = p2[len(fp):]
+                                if rest_ == ("#v",):
+                                    # the variant of a value that was stored inside another one (`Poll::Ready(res)`, a pair) and is taken out again
+                                    d[(loc, "variant")] = v2
+                                else:
+                                    d[(loc, rest_)] = v2
                         if not fp and (src, "variant") in d:
                             d[(loc, "variant")] = d[(src, "variant")]
             elif rv[0] == "agg":
@@ -1896,6 +1911,8 @@ class Body:
                         for (l2, p2), v2 in list(d.items()):
                             if l2 == o[1][0] and p2 != "variant":
                                 d[(loc, (k_,) + p2)] = v2
+                            elif l2 == o[1][0] and p2 == "variant":
+                                d[(loc, (k_, "#v"))] = v2
             elif rv[0] == "disc":
                 src, spr = rv[1]
                 if not [x for x in spr if x != "*"] and (src, "variant") in d:
@@ -2270,6 +2287,10 @@ class Body:
                 while x is not None:
                     path.append(x[0])
                     x = parent[x]
+                # a second, independent over-approximation of the feasible paths (constants and variants carried through aggregates, moves and `?`,
+                # e.g. the Err a spliced helper returns and the caller's `?` passes on): a destination neither reaches is unreachable
+                if not (dst & self.reachable_cp(list(src_succs), cap=30000, avoid=avoid)):
+                    return None
                 return list(reversed(path))
             for s, env2 in self._edge_envs(b, env):
                 ns = (s, env2)
@@ -2533,6 +2554,27 @@ def describe_place(body, place, depth=0):
         # its initialiser does not describe it
         if d is not None and d[0] == "assign" and d[3][0] == "use" and d[3][1][0] == "k" and local in body.mut_borrowed and body.var_name(local):
             d = None
+        da = d
+        hops_ = 4
+        while da is not None and hops_ > 0 and da[0] == "assign" and da[3][0] == "use" and da[3][1][0] in ("c", "m") and not da[3][1][1][1] and projs:
+            hops_ -= 1
+            da = body.single_def(da[3][1][1][0])
+        if da is not None and da is not d and da[0] == "assign" and da[3][0] == "agg" and isinstance(da[3][1], dict) and (da[3][1].get("closure") or da[3][1].get("coroutine")):
+            d = da
+        if d is not None and d[0] == "assign" and d[3][0] == "agg" and isinstance(d[3][1], dict) and (d[3][1].get("closure") or d[3][1].get("coroutine") or d[3][1].get("tuple")):
+            # a component of a freshly built environment / tuple is the value that was put there: `(a, b).1` is b, the second captured variable of
+            # the future built here is what was captured
+            pj = [x for x in projs]
+            while pj and pj[0] == "*":
+                pj = pj[1:]
+            if pj and isinstance(pj[0], list) and pj[0][0] == "f" and isinstance(pj[0][1], int) and pj[0][1] < len(d[3][2]) and depth < 24:
+                base = describe_operand(body, d[3][2][pj[0][1]], depth + 1).lstrip("&")
+                if base.startswith("mut "):
+                    base = base[4:]
+                projs = pj[1:]
+                while projs and projs[0] == "*":
+                    projs = projs[1:]
+                d = None
         if d is not None:
             if d[0] == "assign":
                 base = describe_rvalue(body, d[3], depth + 1)
@@ -2588,7 +2630,7 @@ def describe_operand(body, op, depth=0):
         if "item" in op[1]:
             return op[1]["item"].split("::")[-1]
         if "promoted" in op[1] and depth < 8:
-            pd = "%s::{promoted#%d}" % (body.defpath, op[1]["promoted"])
+            pd = "%s::{promoted#%d}" % (op[1].get("promoted_of") or body.defpath, op[1]["promoted"])
             if pd in body.crate.by_def:
                 pb = body.crate.body(pd)
                 for i, j, p, rv, _ in pb.assigns():
